@@ -132,7 +132,7 @@ func FuzzKeyStoreBytes(f *testing.F) {
 
 		vkit.Pending("key store reload, holder %s, content:\n%s", h.Name, content)
 
-		err := reloadWith(h, content)
+		err := reloadWith(h, content, false)
 
 		vkit.S.Eval()
 		vkit.S.Label("fuzz.keystore.holder=" + h.Name)
